@@ -91,9 +91,12 @@ def injected(code):
 class OConn(Connection):
     """real Connection; only the OS primitives handed to _send/_recv are scripted"""
 
-    def setup(self, wo=(), ro=(), mem_out=None, mem_in=None):
+    def setup(self, wo=(), ro=(), mem_out=None, mem_in=None, nops=1):
         self.wo = list(wo)
         self.ro = list(ro)
+        # a correct loop makes at most one call per script entry plus a few per
+        # operation; far beyond that the loop is running away (bounded, reported)
+        self.max_calls = 4 * (len(self.wo) + len(self.ro) + 8 * (nops + 1)) + 64
         self.wtrace = []
         self.rtrace = []
         self.accepted = bytearray()
@@ -103,6 +106,8 @@ class OConn(Connection):
         return self
 
     def _w(self, fd, buf):
+        if len(self.wtrace) >= self.max_calls:
+            raise RuntimeError('runaway _send loop')
         self.wtrace.append(len(buf))
         r = self.wo.pop(0) if self.wo else None
         if r is not None and r[0] == 'i':
@@ -121,6 +126,8 @@ class OConn(Connection):
         return k
 
     def _r(self, fd, remaining):
+        if len(self.rtrace) >= self.max_calls:
+            raise RuntimeError('runaway _recv loop')
         self.rtrace.append(remaining)
         r = self.ro.pop(0) if self.ro else None
         if r is not None and r[0] == 'i':
@@ -201,7 +208,7 @@ def run_sender(c):
             os.close(rfd)
         pump = threading.Thread(target=drain)
         pump.start()
-    conn = OConn(wfd, readable=c['sflags'][0], writable=c['sflags'][1]).setup(wo=c['wo'], mem_out=mem_out)
+    conn = OConn(wfd, readable=c['sflags'][0], writable=c['sflags'][1]).setup(wo=c['wo'], mem_out=mem_out, nops=len(c['sops']))
     obs = []
     try:
         for op in c['sops']:
@@ -245,7 +252,7 @@ def run_receiver(c, stream):
                 os.close(wfd)
         feeder = threading.Thread(target=feed)
         feeder.start()
-    conn = OConn(rfd, readable=c['rflags'][0], writable=c['rflags'][1]).setup(ro=c['ro'], mem_in=mem_in)
+    conn = OConn(rfd, readable=c['rflags'][0], writable=c['rflags'][1]).setup(ro=c['ro'], mem_in=mem_in, nops=len(c['rops']))
     obs = []
     sane = True
     try:
@@ -317,14 +324,18 @@ def probe_objects(c):
     rfd, wfd = os.pipe()
     objs = [expand(['pat'] + s['__pat__']) if isinstance(s, dict) and '__pat__' in s else s
             for s in c['objs']]
-    tx = OConn(wfd, readable=False, writable=True).setup(wo=c['wo'])
-    rx = OConn(rfd, readable=True, writable=False).setup(ro=c['ro'])
+    tx = OConn(wfd, readable=False, writable=True).setup(wo=c['wo'], nops=2 * len(objs))
+    rx = OConn(rfd, readable=True, writable=False).setup(ro=c['ro'], nops=2 * len(objs))
     got = []
 
     def sender():
-        for o in objs:
-            tx.send(o)
-        tx.close()
+        try:
+            for o in objs:
+                tx.send(o)
+        except BaseException:    # noqa -- the receiver then sees a short stream and reports it
+            pass
+        finally:
+            tx.close()
     t = threading.Thread(target=sender)
     t.start()
     err = None
@@ -357,6 +368,8 @@ def run_case(c):
 
 
 if __name__ == '__main__':
+    import resource
+    resource.setrlimit(resource.RLIMIT_AS, (12 << 30, 12 << 30))     # a runaway mutant must not eat the machine
     cases = json.load(sys.stdin)
     out = [run_case(c) for c in cases]
     print(json.dumps(out))
